@@ -493,6 +493,12 @@ class VTCase(unittest.TestCase):
             # a test that replaces sys.stdout and never puts it back
             sys.stdout = io.StringIO()
             return
+        if s == 'settrace':
+            def _tracer(frame, event, arg):
+                return None
+            sys.settrace(_tracer)
+            sys.settrace(None)
+            return
         if s == 'warnfilter':
             import warnings
             warnings.simplefilter('error', ResourceWarning)
